@@ -1221,6 +1221,11 @@ fn arguments_from_string(input: &str) -> Result<Vec<String>> {
     Ok(out)
 }
 
+#[cfg(feature = "verif_hooks")]
+pub(crate) fn verif_arguments_from_string(input: &str) -> std::result::Result<Vec<String>, String> {
+    arguments_from_string(input).map_err(|e| e.to_string())
+}
+
 fn parse_time_phase_options(input: &str) -> Result<Vec<CounterKind>> {
     input.split(',').map(|s| s.parse()).collect()
 }
